@@ -63,7 +63,7 @@ enum Cmd {
     SendS(Sb, u64),
 }
 #[derive(Clone, Debug)]
-enum Action { Effects, Events, IsDone, Resolve(u64, u64, u64, u64), DropReq(u64, u64, u64), Abort(u64), Event(u64, u64), Spawn(Task) }
+enum Action { Effects, Events, IsDone, Resolve(u64, u64, u64, u64), DropReq(u64, u64, u64), Abort(u64), Event(u64, u64), Spawn(Task), Live }
 
 impl Expr {
     fn coq(&self) -> String { match self { Expr::K(n) => format!("(K {})", n), Expr::V(x) => format!("(V {})", x), Expr::Plus(a, b) => format!("(Plus {} {})", a.coq(), b.coq()) } }
@@ -162,9 +162,10 @@ impl Action {
             Action::DropReq(t, v, o) => format!("(ADropReq {} {} {})", t, v, o),
             Action::Abort(n) => format!("(AAbort {})", n), Action::Event(t, v) => format!("(AEvent {} {})", t, v),
             Action::Spawn(t) => format!("(ASpawn {})", t.coq()),
+            Action::Live => "ALive".into(),
         }
     }
-    fn name(&self) -> &'static str { match self { Action::Effects => "AEffects", Action::Events => "AEvents", Action::IsDone => "AIsDone", Action::Resolve(..) => "AResolve", Action::DropReq(..) => "ADropReq", Action::Abort(_) => "AAbort", Action::Event(..) => "AEvent", Action::Spawn(_) => "ASpawn" } }
+    fn name(&self) -> &'static str { match self { Action::Effects => "AEffects", Action::Events => "AEvents", Action::IsDone => "AIsDone", Action::Resolve(..) => "AResolve", Action::DropReq(..) => "ADropReq", Action::Abort(_) => "AAbort", Action::Event(..) => "AEvent", Action::Spawn(_) => "ASpawn", Action::Live => "ALive" } }
 }
 
 // ---------------------------------------------------------------- effect / event types
@@ -468,6 +469,7 @@ fn run_direct(c: &Cmd, rng: &mut Rng, names: &[u64], nsteps: usize, fixed: Optio
             Action::DropReq(t, v, o) => { if let Some(i) = find(&held, *t, *v, *o) { held[i].req = None; } "ONone".into() }
             Action::Abort(n) => { for (m, h) in aborts.lock().unwrap().iter() { if m == n { h(); } } "ONone".into() }
             Action::Event(..) => "ONone".into(),
+            Action::Live => format!("OLive {}", live(&cmd)),
             Action::Spawn(t) => { let (t, ab) = (t.clone(), aborts.clone());
                 cmd.spawn(move |ctx| async move { let mut e = Env::default(); exec(&t, &mut e, &ctx, &ab).await }); "ONone".into() }
         };
@@ -508,6 +510,11 @@ impl crux_core::App for TheApp {
     fn view(&self, model: &Vec<Ev>) -> Vec<Ev> { model.clone() }
 }
 
+#[cfg(crux_verif)]
+fn core_live<A: crux_core::App>(c: &Core<A>) -> usize { c.verif_executor_tasks() }
+#[cfg(not(crux_verif))]
+fn core_live<A: crux_core::App>(_c: &Core<A>) -> usize { 0 }
+
 fn run_core(hs: &[(u64, Cmd)], rng: &mut Rng, names: &[u64], nsteps: usize, fixed: Option<&[Action]>) -> (Vec<Action>, Vec<String>) {
     *HANDLERS.lock().unwrap() = hs.to_vec();
     let aborts: Aborts = Default::default();
@@ -518,11 +525,12 @@ fn run_core(hs: &[(u64, Cmd)], rng: &mut Rng, names: &[u64], nsteps: usize, fixe
     let mut acts = vec![]; let mut obs = vec![];
     let total = fixed.map(|f| f.len()).unwrap_or(nsteps + 2);
     let probe_all = rng.coin(1, 2);
+    let live_all = rng.coin(1, 2);
     for i in 0..total {
         let a = if let Some(f) = fixed { f[i].clone() }
                 else if i == 0 { Action::Event(ev_tags[0], rng.below(4)) }
                 else if i == total - 1 { Action::Event(99, 0) }
-                else if i > 0 && probe_all && !matches!(acts[i - 1], Action::Event(99, 0)) { Action::Event(99, 0) }
+                else if i > 0 && probe_all && !acts.iter().rev().find(|a| !matches!(a, Action::Live)).map_or(false, |a| matches!(a, Action::Event(99, 0))) { Action::Event(99, 0) }
                 else { pick_action(rng, &held, names, true, &ev_tags) };
         if std::env::var("RT_DEBUG").is_ok() { eprintln!("  {}", a.coq()); }
         let o = match &a {
@@ -538,9 +546,12 @@ fn run_core(hs: &[(u64, Cmd)], rng: &mut Rng, names: &[u64], nsteps: usize, fixe
             },
             Action::DropReq(t, v, o) => { if let Some(i) = find(&held, *t, *v, *o) { held[i].req = None; } "ONone".into() }
             Action::Abort(n) => { for (m, h) in aborts.lock().unwrap().iter() { if m == n { h(); } } "ONone".into() }
+            Action::Live => format!("OLive {}", core_live(&core)),
             _ => "ONone".into(),
         };
         acts.push(a); obs.push(o);
+        // how many tasks the executor holds after the call (hook): leaks show up here
+        if fixed.is_none() && live_all { acts.push(Action::Live); obs.push(format!("OLive {}", core_live(&core))); }
     }
     drop(core);
     (acts, obs)
